@@ -112,4 +112,17 @@ prog('lang', {
              R(content='xx', len=2, id='x', set=[7], lang='BAD'), R(2, 'p')],
     'txt': [R(3, 't')],
 }, ['', '0', '1', '2', '3'], templates={'sub': 'sub {{.txt}}'})
+# pages: a paged sink walked with next / previous, then a graceful end whose exit value is appended to the last page
+prog('pages', {
+    'root': [I('LOAD', 'txt', n=0), I('MAP', 'txt'), I('MNEXT', 'next', '11'), I('MPREV', 'prev', '22'), I('MOUT', 'quit', '9'), I('HALT'),
+             I('INCMP', '>', '11'), I('INCMP', '<', '22'), I('INCMP', 'bye', '9'), I('INCMP', 'sub', '1'), I('INCMP', '.', '*')],
+    'sub': [I('LOAD', 'two', n=0), I('MAP', 'two'), I('MNEXT', 'fwd', '11'), I('MPREV', 'back', '22'), I('HALT'),
+            I('INCMP', '>', '11'), I('INCMP', '<', '22'), I('INCMP', '_', '0')],
+    'bye': [I('LOAD', 'big', n=0), I('HALT')],
+    '_catch': CATCH,
+}, {
+    'txt': [R(content='aaaaa\nbbbbbbb\n\ncccc\ndd\neeeeeeee\n', len=30, id='#'), R(content='aaaaaaaaa\nbbbbbbbbb\nccccccccc', len=29, id='#')],
+    'two': [R(content='xx\nyyyyyyyyyyyy\nzz\n\n', len=20, id='#')],
+    'big': [R(14, 'g'), R(2, 'g')],
+}, ['', '0', '1', '11', '22', '9', '5'], templates={'root': 'R\n{{.txt}}', 'sub': 'S\n{{.two}}'}, outputsize=36)
 print('programs written to', OUT)
